@@ -65,9 +65,16 @@ UNIT_TRUSTED["table_rpki"] = [
     "NOT under contract: RpkiTable::{insert,remove,drop_source,state,iter} (nested get_mut on HashMap/PatriciaMap, foreign iterators, Arc::ptr_eq): the 'operations on a set keyed by (cache, prefix, max-length, AS)' clause of C12 is not covered; stored keys with host bits set (a cache sending non-canonical prefixes) are never matched — by construction of the lookup, and consistent with the spec",
 ]
 
+UNIT_TRUSTED["table_policy"] = [
+    "Statement::apply (conditions + actions of one statement, 190 lines of attribute surgery) is NOT verified: it enters as an uninterpreted deterministic function stmt_step of its arguments (assumed: it is a function, i.e. has no hidden state)",
+    "packet::bgp::AsPathIter modelled as the sequence of segments it yields (aspath_segments, uninterpreted; a segment may be empty); R11 helpers vx_aspath_segments / vx_aspath_next; precondition attr_binary(attr) is Some (AsPathIter::new unwraps it)",
+    "regex::Regex::is_match is an uninterpreted function of pattern and text; R12 helpers vx_any / vx_all (verified loops)",
+    "NOT under contract: Condition::evalute (prefix sets via ip_network_table longest_match, neighbour / community / RPKI conditions), the actions, and the PolicyTable CRUD 'still referenced cannot be deleted' clause (rests on Arc::strong_count, outside any contract)",
+]
+
 # minimum number of functions that must produce obligations / of must-fail twins that must run
-FLOORS = {"daemon_fsm": 30, "daemon_gr": 4, "daemon_peer_tx": 7, "table_cmp": 20, "packet_validate": 1, "packet_parse": 1, "table_rpki": 3}
-TWIN_FLOORS = {"daemon_fsm": 8, "daemon_gr": 3, "daemon_peer_tx": 2, "table_cmp": 4, "packet_validate": 1, "packet_parse": 1, "table_rpki": 1}
+FLOORS = {"daemon_fsm": 30, "daemon_gr": 4, "daemon_peer_tx": 7, "table_cmp": 20, "packet_validate": 1, "packet_parse": 1, "table_rpki": 3, "table_policy": 6}
+TWIN_FLOORS = {"daemon_fsm": 8, "daemon_gr": 3, "daemon_peer_tx": 2, "table_cmp": 4, "packet_validate": 1, "packet_parse": 1, "table_rpki": 1, "table_policy": 1}
 
 PLAN = {
     "C01": {"verus": ["daemon_peer_tx"], "level": "proof"},
@@ -78,6 +85,7 @@ PLAN = {
     "C08": {"verus": ["daemon_fsm"], "level": "proof"},
     "C10": {"verus": ["daemon_gr"], "level": "proof"},
     "C12": {"verus": ["table_rpki"], "kani": ["c12_covering_key_v4", "c12_covering_key_v6"], "level": "proof"},
+    "C14": {"verus": ["table_policy"], "level": "proof"},
     "C16": {"verus": ["daemon_fsm"], "kani": ["c16_ipnet_contains_v4", "c16_ipnet_contains_v6"], "level": "proof"},
     "C02": {"verus": ["table_cmp"], "level": "proof"},
     "C03": {"verus": ["packet_parse"], "level": "proof",
